@@ -102,7 +102,7 @@ class Gen(object):
             names = [n for n in d["spec_hash_names"] if n in HASHES]
             return {n: HASHES[n] for n in r.sample(names, r.randint(1, len(names)))}
         if k == "dictionary":
-            return {"key-one": "v", "key_two": r.choice([1, "w"])}
+            return {"key-one": "v", "key_two": r.choice([1, "w", 0, "", False, True])}      # falsy member values are values like any other
         if k == "extensions":
             names = EXT_FOR.get(owner, [])
             if not names:
